@@ -268,7 +268,7 @@ package check
 //@   noframe
 //@   props C08 C13 C03
 //@   requires wfe(e) && ctx != nil && mapper != nil && 0 <= i && i < len(results)
-//@   requires captured-read-only-mapper: mapper != nil && mapper.ReadOnly
+//@   requires captured-read-only-mapper: mapper != nil && mapper.ReadOnly && mapper.D != nil
 //@   requires[C08] creator-slot-alignment: 0 <= i && i < len(tuples) && tuple == tuples[i] && len(results) == len(tuples) && maxDepth == old(maxDepth)
 //@   ensures[C03] slot-inv: results[i].Err != nil ==> results[i].Membership != checkgroup.IsMember
 
